@@ -153,7 +153,7 @@ resolve_res = Fn(
     "src/asm/resolver/res.rs", "resolve_res", slot="resolver", ret="res", props=["C02", "C03", "C19"],
     requires=[item_defined("res_directives", "ast_res"), BANK_REQ],
     ensures=pass_contract() + [
-        C("resolved_means_unchanged", "res == %s ==> %s.reserve_size == %s.reserve_size" % (STABLE, idx("res_directives", "ast_res"), oidx("res_directives", "ast_res")), ["C02", "C09"]),
+        C("resolved_means_unchanged", "res == %s ==> %s.reserve_size == %s.reserve_size" % (STABLE, idx("res_directives", "ast_res"), oidx("res_directives", "ast_res")), ["C02", "C09", "C01"]),
         failed_assert_clause("ast_res.expr"),
         C("reserve_is_whole_addresses", "res is Ok ==> %s.reserve_size %% bank_of(old(defs), ctx.bank_ref).addr_unit == 0 || bank_of(old(defs), ctx.bank_ref).addr_unit == 0" % idx("res_directives", "ast_res"), ["C06"]),
         C("banks_untouched", "final(defs).bankdefs == old(defs).bankdefs", ["C02"]),
@@ -168,7 +168,7 @@ resolve_align = Fn(
     "src/asm/resolver/align.rs", "resolve_align", slot="resolver", ret="res", props=["C02", "C03", "C19"],
     requires=[item_defined("align_directives", "ast_align")],
     ensures=pass_contract() + [
-        C("resolved_means_unchanged", "res == %s ==> %s.align_size == %s.align_size" % (STABLE, idx("align_directives", "ast_align"), oidx("align_directives", "ast_align")), ["C02", "C09"]),
+        C("resolved_means_unchanged", "res == %s ==> %s.align_size == %s.align_size" % (STABLE, idx("align_directives", "ast_align"), oidx("align_directives", "ast_align")), ["C02", "C09", "C01"]),
         failed_assert_clause("ast_align.expr"),
         C("zero_alignment_rejected_in_last_pass", "res == %s && ctx.is_last_iteration ==> %s.align_size != 0" % (STABLE, idx("align_directives", "ast_align")), ["C06"]),
         C("banks_untouched", "final(defs).bankdefs == old(defs).bankdefs", ["C02"]),
@@ -180,7 +180,7 @@ resolve_addr = Fn(
     "src/asm/resolver/addr.rs", "resolve_addr", slot="resolver", ret="res", props=["C02", "C03", "C06", "C19"],
     requires=[item_defined("addr_directives", "ast_addr"), BANK_REQ],
     ensures=pass_contract() + [
-        C("resolved_means_unchanged", "res == %s ==> %s.address.val() == %s.address.val()" % (STABLE, idx("addr_directives", "ast_addr"), oidx("addr_directives", "ast_addr")), ["C02", "C09"]),
+        C("resolved_means_unchanged", "res == %s ==> %s.address.val() == %s.address.val()" % (STABLE, idx("addr_directives", "ast_addr"), oidx("addr_directives", "ast_addr")), ["C02", "C09", "C01"]),
         failed_assert_clause("ast_addr.expr"),
         C("inside_bank_in_last_pass",
           "res == %s && ctx.is_last_iteration ==> %s.address.val() >= bank_of(old(defs), ctx.bank_ref).addr_start.val()"
@@ -392,7 +392,7 @@ resolve_constant = Fn(
     requires=[C("symbol_defined", "defined(&old(defs).symbols, ast_symbol.item_ref)", ["C03"]),
               C("is_constant", "ast_symbol.kind is Constant", ["C03"])],
     ensures=pass_contract() + [
-        C("resolved_means_unchanged_unless_frozen", "res == %s && !%s.resolved ==> expr::value_same(%s.value, %s.value)" % (STABLE, SYM, SYM, OSYM), ["C02", "C09"]),
+        C("resolved_means_unchanged_unless_frozen", "res == %s && !%s.resolved ==> expr::value_same(%s.value, %s.value)" % (STABLE, SYM, SYM, OSYM), ["C02", "C09", "C01"]),
         C("frozen_only_in_first_pass_when_statically_known", "%s.resolved && !%s.resolved ==> ctx.is_first_iteration && opts.optimize_statically_known && %s.value_statically_known" % (SYM, OSYM, OSYM), ["C02", "C08"]),
     ],
     rewrites=[Rewrite(r"println!\((?:[^()]|\((?:[^()]|\([^()]*\))*\))*\);", "", regex=True, rule="R7", why="debug printing statement deleted", count=2)],
@@ -416,7 +416,7 @@ resolve_instruction = Fn(
     FIN, "resolve_instruction", slot="resolver", ret="res", props=["C02", "C03"],
     requires=[C("item_defined", "defined(&old(defs).instructions, ast_instr.item_ref)", ["C03"])],
     ensures=pass_contract() + [
-        C("resolved_means_unchanged_unless_frozen", "res == %s && !%s.resolved ==> %s.encoding.val() == %s.encoding.val()" % (STABLE, INS, INS, OINS), ["C02", "C09"]),
+        C("resolved_means_unchanged_unless_frozen", "res == %s && !%s.resolved ==> %s.encoding.val() == %s.encoding.val()" % (STABLE, INS, INS, OINS), ["C02", "C09", "C01"]),
         C("frozen_only_in_first_pass_when_statically_known", "%s.resolved && !%s.resolved ==> ctx.is_first_iteration && opts.optimize_statically_known && %s.encoding_statically_known" % (INS, OINS, OINS), ["C02", "C08"]),
         C("stores_the_chosen_encoding_with_its_size", "res == %s && !%s.resolved ==> %s.encoding == chosen_encoding(final(report))" % (STABLE, OINS, INS), ["C02", "C01"]),
     ],
@@ -435,7 +435,7 @@ resolve_data_element = Fn(
         C("element_defined", "elem_index < ast_data.item_refs@.len() && elem_index < ast_data.elems@.len() && defined(&old(defs).data_elems, Some(ast_data.item_refs@[elem_index as int]))", ["C03"]),
     ],
     ensures=pass_contract() + [
-        C("resolved_means_unchanged_unless_frozen", "res == %s && !%s.resolved ==> %s.encoding.val() == %s.encoding.val()" % (STABLE, DE, DE, ODE), ["C02", "C09"]),
+        C("resolved_means_unchanged_unless_frozen", "res == %s && !%s.resolved ==> %s.encoding.val() == %s.encoding.val()" % (STABLE, DE, DE, ODE), ["C02", "C09", "C01"]),
         C("frozen_only_in_first_pass_when_statically_known", "%s.resolved && !%s.resolved ==> ctx.is_first_iteration && opts.optimize_statically_known && %s.encoding_statically_known" % (DE, ODE, ODE), ["C02", "C08"]),
         C("width_checked_in_last_pass",
           "res is Ok && ctx.is_last_iteration && !%s.resolved && ast_data.elem_size is Some ==> %s.encoding.size == ast_data.elem_size" % (ODE, DE), ["C04"]),
